@@ -271,7 +271,7 @@ def op_gen_params(op, root, opdir, cap):
     if g["kind"] == "seq":
         kw["seq"] = list(g["seq"])
     else:
-        sp = os.path.join(opdir, "seq.json")
+        sp = os.path.join(opdir, "seq" + g.get("ext", ".json"))
         with open(sp, "w") as fh:
             fh.write(g["text"])
         kw["seq_file"] = Path(sp)
